@@ -116,6 +116,9 @@ class G:
                         pre, suf = r.choice(["get", "my", "x"]), r.choice(["hi", "impl", "v2"])
                         w = {"Snake": f"{pre}_{w}_{suf}", "Kebab": f"{pre}-{w}-{suf}", "Camel": f"{pre}{w[:1].upper()}{w[1:]}{suf.capitalize()}",
                              "Pascal": f"{pre.capitalize()}{w}{suf.capitalize()}", "ScreamingSnake": f"{pre.upper()}_{w}_{suf.upper()}"}[st]
+                    elif r.random() < 0.12 and st in ("Snake", "Kebab", "Camel", "Pascal"):
+                        # an identifier that mixes two separator kinds after the term, with or without a _ / __ prefix
+                        w = r.choice(["", "_", "__"]) + w + r.choice(["_foo-bar", "-some_thing", ".x_y", "_a.b", "-v2_x"])
                     parts.append(w)
                 seps = [" ", ", ", " = ", "(", "); ", " \"", "\" ", "é ", " -- ", "..", "...", ".", "::", "->", "..=", "/", "[", "]."]
                 ln = r.choice(["", "x ", "café ", "-- ", "let "]) + r.choice(seps).join(parts) + r.choice(["", ";", " y", ")"])
